@@ -139,7 +139,7 @@ def run(repo, tier):
     mixin_rules(repo, res)
     run_loops(repo, res, MODS | {'photutils.psf.photometry'}, rules=('LP1', 'LP1b', 'LP2'))
     run_axis(repo, res, MODS)
-    run_forward(repo, res, MODS)
+    run_forward(repo, res, MODS | {'photutils.psf.photometry'})
     a1_collect(repo, res, modules=MODS)
     # the mixin's public methods are entries of the psf module
     res.floor('SPEC', 18)
